@@ -119,3 +119,167 @@ Proof.
   - apply G. apply map_length.
   - apply G. destruct (fetch_step_frame _ _ _ _ _ H0) as [E _]. rewrite E. reflexivity.
 Qed.
+
+(* ------------------------------------------------------------------------------------------ *)
+(* 2. a public method that reads flag = false answers Unavailable and changes nothing *)
+
+(* every public method is: take the flag's mutex, read the flag, drop the guard, then either the body or
+   the Unavailable answer *)
+Lemma api_p_shape sc fuel o :
+  exists body, api_p sc fuel o = RAcq L_reach (RReadFlag (api_checked body)).
+Proof. eexists. reflexivity. Qed.
+
+Definition quiet_step (c c' : rconf) : Prop :=
+  rc_tower c' = rc_tower c /\ rc_flag c' = rc_flag c /\ rc_pending c' = rc_pending c /\ rc_lkb c' = rc_lkb c /\
+  (forall i, calls_rev i (rc_log c') = calls_rev i (rc_log c)).
+
+Theorem unavailable_takes_no_work c i body held :
+  (* the step that takes the mutex *)
+  (nth_error (rc_threads c) i = Some (mk_rthread (RRun (RAcq L_reach (RReadFlag (api_checked body)))) held) ->
+   forall c', rstep c i = Some c' ->
+     quiet_step c c' /\ nth_error (rc_threads c') i = Some (mk_rthread (RRun (RReadFlag (api_checked body))) (L_reach :: held))) /\
+  (* the step that reads the flag: false -> all that is left is `drop the guard; answer Unavailable` *)
+  (nth_error (rc_threads c) i = Some (mk_rthread (RRun (RReadFlag (api_checked body))) held) -> rc_flag c = false ->
+   forall c', rstep c i = Some c' ->
+     quiet_step c c' /\ nth_error (rc_threads c') i = Some (mk_rthread (RRun (RRel L_reach (RRet RUnavailable))) held)) /\
+  (* the step that drops the guard: the thread has returned Unavailable *)
+  (nth_error (rc_threads c) i = Some (mk_rthread (RRun (RRel L_reach (RRet RUnavailable))) held) ->
+   forall c', rstep c i = Some c' ->
+     quiet_step c c' /\ exists th', nth_error (rc_threads c') i = Some th' /\ rresult th' = Some (RDone RUnavailable) /\
+                                    rt_held th' = remove_lock L_reach held).
+Proof.
+  assert (Hset : forall (l : list rthread) x y, nth_error l i = Some y -> nth_error (set_nth l i x) i = Some x)
+    by (intros; eapply nth_error_set_nth_eq; eauto).
+  repeat split; intros; unfold rstep in *;
+    match goal with Hn : nth_error _ _ = Some _ |- _ => rewrite Hn in *; cbn [rt_st rt_held] in * end.
+  all: try match goal with H : (if ?b then _ else _) = Some _ |- _ => destruct b; [discriminate|] end.
+  all: match goal with H : Some _ = Some _ |- _ => inversion H; subst; clear H end.
+  all: cbn; try reflexivity.
+  all: try (intros j; destruct (Nat.eqb j i); reflexivity).
+  all: try (destruct (Nat.eqb _ i); reflexivity).
+  all: try (erewrite Hset by eassumption; try rewrite H0; reflexivity).
+  all: try (eexists; split; [eapply Hset; eassumption|split; reflexivity]).
+Qed.
+
+(* ------------------------------------------------------------------------------------------ *)
+(* 3. after a transport error the SAME call is made again; a transport error produces nothing *)
+
+Definition rkey := (rpc_kind * N)%type.
+
+(* whatever the state, a request put on the wire by f is of kind / for transaction kk *)
+Definition has_key (kk : rkey) {B} (f : tower -> res B) : Prop :=
+  forall t b t' e, f t = Ok b t' -> issued t t' = Some e -> (r_kind e, r_tx e) = kk.
+
+(* kd None p: every Carrier call of p has a fixed key and its transport-error branch owes that key;
+   kd (Some kk) p: moreover the first Carrier call p can make has key kk *)
+Fixpoint kd {A} (o : option rkey) (p : rprog A) : Prop :=
+  match p with
+  | RRet _ | RExhausted => True
+  | RAcq _ k | RRel _ k | RSetFlag _ k | RWait k | RNotify k | RPersist k => kd o k
+  | RAct B f k => forall b, kd o (k b)
+  | RReadFlag k => forall b, kd o (k b)
+  | RFetch _ k => forall r, kd o (k r)
+  | RRpc B f k => exists kk, match o with Some kk' => kk = kk' | None => True end /\ has_key kk f /\
+                             (forall b, kd None (k (Verdict b))) /\ kd (Some kk) (k TransportErr)
+  end.
+
+Definition tprog (th : rthread) : option (rprog rout) :=
+  match rt_st th with RRun p | RParked _ p => Some p | REnd _ => None end.
+
+Definition keyed_conf (c : rconf) : Prop :=
+  forall i th p, nth_error (rc_threads c) i = Some th -> tprog th = Some p -> kd None p.
+
+Definition Kinv (c : rconf) : Prop :=
+  (forall i th p, nth_error (rc_threads c) i = Some th -> tprog th = Some p -> kd (owed (calls_rev i (rc_log c))) p) /\
+  (forall i, retry_ok_rev (calls_rev i (rc_log c)) = true).
+
+Lemma srel_log c j th c' : srel c j th c' -> rc_log c' = rc_log c \/ exists e, rc_log c' = (j, e) :: rc_log c.
+Proof.
+  intros H; destruct H; cbn; eauto.
+  destruct (fetch_step_frame _ _ _ _ _ H0) as [_ [_ [_ [_ [_ [E|[hash [h E]]]]]]]]; rewrite E; eauto.
+Qed.
+
+Lemma tprog_notify th : tprog (notify_thread th) = tprog th.
+Proof. unfold notify_thread, tprog. destruct (rt_st th) eqn:E; cbn; rewrite ?E; reflexivity. Qed.
+
+Lemma kind_eqb_refl k : kind_eqb k k = true.
+Proof. destruct k; reflexivity. Qed.
+
+Lemma Kinv_step c j c' : Kinv c -> rstep c j = Some c' -> Kinv c'.
+Proof.
+  intros [HK HR] Hs. destruct (rstep_inv _ _ _ Hs) as [th [Hn Hrel]].
+  assert (Hother : forall i, i <> j -> calls_rev i (rc_log c') = calls_rev i (rc_log c)).
+  { intros i Hi. destruct (srel_log _ _ _ _ Hrel) as [->|[e ->]]; [reflexivity|]. cbn.
+    rewrite (proj2 (Nat.eqb_neq i j) Hi). reflexivity. }
+  assert (Hself : (forall th' p, nth_error (rc_threads c') j = Some th' -> tprog th' = Some p ->
+                                 kd (owed (calls_rev j (rc_log c'))) p) /\
+                  retry_ok_rev (calls_rev j (rc_log c')) = true).
+  { specialize (HR j).
+    assert (HKp : forall p, tprog th = Some p -> kd (owed (calls_rev j (rc_log c))) p) by (intros p0 Hp0; exact (HK j th p0 Hn Hp0)).
+    unfold tprog in HKp.
+    assert (Hset : forall (l : list rthread) x y, nth_error l j = Some y -> nth_error (set_nth l j x) j = Some x)
+      by (intros; eapply nth_error_set_nth_eq; eauto).
+    destruct Hrel;
+      match goal with Hst : rt_st th = _ |- _ => rewrite Hst in HKp; specialize (HKp _ eq_refl); cbn [kd] in HKp end;
+      cbn [rc_threads rc_log add_log put_thread set_threads set_tower set_flag set_rpc_or set_lkb rdie calls_rev];
+      rewrite ?Nat.eqb_refl.
+    all: try match goal with H0 : fetch_step _ _ _ = _ |- _ =>
+           destruct (fetch_step_frame _ _ _ _ _ H0) as [Eth [_ [_ [_ [_ [El|[hash [h El]]]]]]]]; rewrite Eth, El;
+           cbn [calls_rev]; rewrite ?Nat.eqb_refl end.
+    all: (split; [intros th' p' Hn' Hp';
+                  first [ erewrite Hset in Hn' by eassumption
+                        | erewrite Hset in Hn' by (rewrite nth_error_map, Hn; reflexivity) ];
+                  inversion Hn'; subst th'; cbn in Hp'; try discriminate; inversion Hp'; subst p' | ]).
+    all: cbn [retry_ok_rev owed same_call]; try assumption; try apply HKp.
+    (* transport error *)
+    - destruct HKp as [kk [Ho [Hk [_ Herr]]]]. rewrite (Hk _ _ _ _ H0 H1). exact Herr.
+    - destruct HKp as [kk [Ho [Hk [_ Herr]]]]. rewrite HR, andb_true_r.
+      destruct (owed (calls_rev j (rc_log c))) as [[k0 tx0]|] eqn:Eo; [|reflexivity].
+      subst kk. specialize (Hk _ _ _ _ H0 H1). inversion Hk; subst. cbn. rewrite kind_eqb_refl, N.eqb_refl. reflexivity.
+    (* verdict *)
+    - destruct HKp as [kk [Ho [Hk [Hv _]]]]. apply Hv.
+    - destruct HKp as [kk [Ho [Hk [_ Herr]]]]. rewrite HR, andb_true_r.
+      destruct (owed (calls_rev j (rc_log c))) as [[k0 tx0]|] eqn:Eo; [|reflexivity].
+      subst kk. specialize (Hk _ _ _ _ H0 H1). inversion Hk; subst. cbn. rewrite kind_eqb_refl, N.eqb_refl. reflexivity.
+    (* memo *)
+    - destruct HKp as [kk [Ho [Hk [Hv _]]]]. apply Hv.
+    - rewrite HR, andb_true_r. destruct (owed (calls_rev j (rc_log c))) as [[k0 tx0]|]; reflexivity. }
+  split.
+  - intros i th' p Hn' Hp. destruct (Nat.eq_dec i j) as [->|Hi]; [apply (proj1 Hself th' p Hn' Hp)|].
+    rewrite (Hother i Hi). destruct (srel_other _ _ _ _ i Hrel Hi) as [E|[_ E]]; rewrite E in Hn'.
+    + eapply HK; eauto.
+    + destruct (nth_error (rc_threads c) i) as [th0|] eqn:E0; [|discriminate]. cbn in Hn'. inversion Hn'; subst th'.
+      rewrite tprog_notify in Hp. eapply HK; eauto.
+  - intros i. destruct (Nat.eq_dec i j) as [->|Hi]; [apply Hself|]. rewrite (Hother i Hi). apply HR.
+Qed.
+
+(* In every execution (any schedule, any oracle), for every thread: a request that hit a transport error
+   is followed - if the thread makes another Carrier call at all - by a request of the same kind for
+   the same transaction. *)
+Theorem same_transaction_retried c sched i :
+  keyed_conf c -> rc_log c = [] ->
+  retry_ok (calls_of i (rc_log (rrun_config c sched))) = true.
+Proof.
+  intros Hk Hl. unfold retry_ok, calls_of. rewrite rev_involutive.
+  assert (H : Kinv (rrun_config c sched)).
+  { apply rrun_inv; [intros; eapply Kinv_step; eauto|]. split.
+    - intros j th p Hn Hp. rewrite Hl. cbn. eapply Hk; eauto.
+    - intros j. rewrite Hl. reflexivity. }
+  apply H.
+Qed.
+
+(* A transport error is never treated as a verdict: the step in which a request gets no answer changes
+   neither the memo nor a table nor anything else of the tower, and the thread goes on with the retry branch. *)
+Theorem transport_error_produces_nothing c j c' k tx :
+  rstep c j = Some c' -> rc_log c' = (j, EvRpc k tx CallErr) :: rc_log c ->
+  rc_tower c' = rc_tower c /\ rc_flag c' = rc_flag c /\
+  exists th B f (kont : ans B -> rprog rout), nth_error (rc_threads c) j = Some th /\ rt_st th = RRun (RRpc B f kont) /\
+    nth_error (rc_threads c') j = Some (mk_rthread (RRun (kont TransportErr)) (rt_held th)).
+Proof.
+  intros Hs Hl. destruct (rstep_inv _ _ _ Hs) as [th [Hn Hrel]].
+  destruct Hrel; cbn in Hl; try (exfalso; apply (f_equal (@length _)) in Hl; cbn in Hl; lia); try discriminate.
+  - repeat split; try reflexivity. exists th, B, f, k0. repeat split; try assumption.
+    cbn. eapply nth_error_set_nth_eq; eauto.
+  - destruct (fetch_step_frame _ _ _ _ _ H0) as [_ [_ [_ [_ [_ [E|[hash [h E]]]]]]]]; rewrite E in Hl;
+      [exfalso; apply (f_equal (@length _)) in Hl; cbn in Hl; lia|discriminate].
+Qed.
